@@ -26,4 +26,11 @@ func init() {
 		_ = fs.Parse(args)
 		return sdffam.GenRandom(*out, *seed, *n)
 	}
+	commands["sdf-skel"] = func(args []string) error {
+		fs := flag.NewFlagSet("sdf-skel", flag.ExitOnError)
+		in := fs.String("in", "", "skeleton cases ndjson (SdfSkel.tla)")
+		out := fs.String("out", "", "trace ndjson")
+		_ = fs.Parse(args)
+		return sdffam.RunSkel(*in, *out)
+	}
 }
